@@ -144,6 +144,14 @@ class Fn:
         K = n['kids']
         if k == 'DeclRefExpr':
             return n['n']
+        # constant sub-expressions print as their folded value (sizeof, offsetof, arithmetic on constants) so that
+        # strings of equal-valued expressions compare equal; enum constants keep their names (handled above)
+        if 'v' in n and k not in ('IntegerLiteral', 'CharacterLiteral'):
+            kk = n
+            while kk['k'] in ('ImplicitCastExpr', 'CStyleCastExpr') and kk['kids']:
+                kk = self.N[kk['kids'][0]]
+            if not (kk['k'] == 'DeclRefExpr'):
+                return str(n['v'])
         if k == 'MemberExpr':
             return self.s(K[0]) + ('->' if n['arrow'] else '.') + n['n']
         if k in ('ImplicitCastExpr', 'CStyleCastExpr'):
